@@ -200,8 +200,26 @@ def _isnull(e, env):
 
 
 def _in(e, env):
-    a = ev(e[1], env)
     neg = e[3]
+    if isinstance(e[1], tuple) and e[1][0] == 'row':
+        # row value constructor on the left: (a, b) [NOT] IN (SELECT x, y ...).  SQL-92 8.2: the row comparison is TRUE when every
+        # component pair is equal, FALSE when some pair is definitely different, UNKNOWN otherwise
+        lefts = [ev(x, env) for x in e[1][1]]
+        if not (isinstance(e[2], tuple) and e[2][0] == 'select'): raise Unmodelled('row value IN a list')
+        res = eval_select(e[2], env)
+        if len(res.rows) and len(res.rows[0][1]) != len(lefts): raise Unmodelled('row value width')
+        if not res.rows: return SV('bool', z3.BoolVal(bool(neg)))
+        any_true, any_unknown = [], []
+        for g, vals, _ in res.rows:
+            cs = [compare('=', x, y, env) for x, y in zip(lefts, vals)]
+            all_true = z3.And([is_true(c) for c in cs])
+            some_false = z3.Or([z3.And(z3.Not(c.n), z3.Not(c.t)) for c in cs])
+            any_true.append(z3.And(g, all_true))
+            any_unknown.append(z3.And(g, z3.Not(all_true), z3.Not(some_false)))
+        t = z3.Or(any_true)
+        r = SV('bool', t, z3.And(z3.Not(t), z3.Or(any_unknown)))
+        return not3(r) if neg else r
+    a = ev(e[1], env)
     if isinstance(e[2], tuple) and e[2][0] == 'select':
         res = eval_select(e[2], env)
         if len(res.rows) and len(res.rows[0][1]) != 1:
